@@ -549,12 +549,12 @@ def provenance(chk, op):
     enc = repo.module(ENC)
     ea = enc.func("encode_array")
     writer = {}
-    for n in ast.walk(ea.node):
-        if isinstance(n, ast.Dict):
-            ks = [const_str(k) for k in n.keys if k is not None]
-            if "__type__" in ks and "backend_array" in [const_str(v) for v in n.values]:
-                for k, v in zip(n.keys, n.values):
-                    writer[const_str(k)] = v
+    from ..cachecodec import _tagged_dicts
+    doc = _tagged_dicts(ea).get("backend_array")  # the literal, completed by the entries stored into it afterwards
+    if doc is not None:
+        for k, v in zip(doc.keys, doc.values):
+            if k is not None:
+                writer[const_str(k)] = v
     reach = op.g.reachable([OPEN_IMAGE])
     n_sites = 0
     for k in sorted(reach):
